@@ -41,10 +41,36 @@ def wipe_info(f):
     header, body = next(iter(loops.items()))
     if f.bb_of[st["id"]] not in body:
         return None, "store outside the loop"
-    # pointer cursor
+    # index form:  for (i = 0; i < size; ++i) p[i] = 0;
     p = st["ops"][1]
     while p[0] == "i" and f.insts[p[1]]["op"] in CASTS:
         p = f.insts[p[1]]["ops"][0]
+    if p[0] == "i" and f.insts[p[1]]["op"] == "getelementptr":
+        g = f.insts[p[1]]["gep"]
+        b = g["base"]
+        while b[0] == "i" and f.insts[b[1]]["op"] in CASTS:
+            b = f.insts[b[1]]["ops"][0]
+        if b[0] == "a" and len(g["vars"]) == 1 and g["coff"] == 0 and g["vars"][0][1] == st["size"] == 1:
+            iv = g["vars"][0][0]
+            while iv[0] == "i" and f.insts[iv[1]]["op"] in ("zext", "sext"):
+                iv = f.insts[iv[1]]["ops"][0]
+            t = f.term(header)
+            if iv[0] == "i" and f.insts[iv[1]]["op"] == "phi" and f.bb_of[iv[1]] == header and t["op"] == "br" and t["ops"][0][0] == "i":
+                phi = f.insts[iv[1]]
+                start = step = None
+                for v, pb in zip(phi["ops"], phi["inblocks"]):
+                    if pb in body:
+                        bi = f.insts.get(v[1]) if v[0] == "i" else None
+                        if bi and bi["op"] == "add" and bi["ops"][0] == ["i", phi["id"]] and bi["ops"][1][0] == "c":
+                            step = int(bi["ops"][1][1])
+                    elif v[0] == "c":
+                        start = int(v[1])
+                c = f.insts[t["ops"][0][1]]
+                if start == 0 and step == 1 and c["op"] == "icmp" and c["pred"] in ("ult", "ne") and c["ops"][0] == ["i", phi["id"]] and c["ops"][1][0] == "a" \
+                        and t["succs"][0] in body and not any(s not in body for bb in body if bb != header for s in f.succs[bb]):
+                    return (b[1], c["ops"][1][1]), "volatile byte loop (index form)"
+        return None, "store address is not a recognised loop cursor"
+    # pointer cursor
     if p[0] != "i" or f.insts[p[1]]["op"] != "phi":
         return None, "store address is not a loop cursor"
     pphi = f.insts[p[1]]
@@ -122,13 +148,16 @@ def o3_wipe_extent(f, free_inst):
                 if b["op"] == "add" and b["ops"][0] == ["i", i["id"]] and b["ops"][1][0] == "c":
                     kk = int(b["ops"][1][1])
                     bits = b.get("bits", 64)
-                    kk = (1 << bits) - kk if kk > (1 << (bits - 1)) else -kk
-                    # loop exit tests this value against 0
+                    kk = kk - (1 << bits) if kk > (1 << (bits - 1)) else kk     # signed step
+                    # loop exit compares this value with a constant: trip bytes = |bound - start|
                     uses = f.uses().get(b["id"], []) + f.uses().get(i["id"], [])
                     for u in uses:
                         ui = f.insts[u]
-                        if ui["op"] == "icmp" and ui["ops"][1][0] == "c" and int(ui["ops"][1][1]) == 0:
-                            N, k = int(start[0][1]), kk
+                        if ui["op"] == "icmp" and ui["ops"][1][0] == "c" and ui["pred"] in ("eq", "ne"):
+                            bound = int(ui["ops"][1][1])
+                            s0 = int(start[0][1])
+                            if kk != 0 and (bound - s0) % kk == 0 and (bound - s0) // kk > 0:
+                                N, k = abs(bound - s0), abs(kk)
         offs = set()
         bytes_per_iter = 0
         for s in ss:
